@@ -46,6 +46,7 @@ def render(rec, seed=0, name=None):
     kind = rec["kind"]
     name = name or ("test." + kind)
     sp.guard = corpus.guard_of(name)
+    sp.syms = ["".join(x) for x in rec.get("syms", [])]
     out = []
     linemap = []
     for ln in rec["prog"]:
@@ -54,6 +55,15 @@ def render(rec, seed=0, name=None):
             out.append(corpus.header42(name))
         elif ln["k"] == "empty":
             out.append("\n")
+        elif ln["k"] == "h_slashslash":
+            t = sp.render(ln["items"])
+            out.append("// " + t[3:-3].rstrip() + "\n")
+        elif ln["k"] == "h_oneblock":
+            t = sp.render(ln["items"])
+            j = [x["k"] for x in rec["prog"]].index("h_oneblock")
+            n = sum(1 for x in rec["prog"] if x["k"] == "h_oneblock")
+            i = len(linemap) - 1 - j
+            out.append(("/* " if i == 0 else "   ") + t[3:-3] + (" */" if i == n - 1 else "   ").rstrip() + "\n")
         elif ln["k"] == "comment" and ln["st"] == "IsComment3":
             out.append("/*\n** " + sp.text(18) + "\n*/\n")
         else:
